@@ -15,3 +15,13 @@ def ceil8(n):
 
 def inside(B, p, n):
     return p >= 0 and n >= 0 and p + n <= 8 * len(B)
+
+
+# ---- lemma schemas (instantiated explicitly through contract `hints`; each is checked concretely by
+# ---- pyvc/conformance.py on random arguments and stated in lean/PyVC.lean) ------------------------------------------
+
+@axiom
+def bits_prefix(B, m, p, n):
+    """bits inside the first m bytes of B are the bits of that prefix"""
+    return implies(0 <= p and 0 <= n and p + n <= 8 * m and m <= len(B),
+                   bits(B, p, n) == low(shr(be(sl(B, 0, m)), 8 * m - p - n), n))
